@@ -123,7 +123,7 @@ class C05(Prop):
         small symmetric alphabet (values on thresholds and at equal distances around them); all chunkings."""
         from rtverif.props.c06 import SEMS, PROP as C06P
         if rng.random() < 0.5:
-            c6 = C06P.gen_eq_mirror(rng)            # an overridden equality predicate, mirrored values
+            c6 = C06P.gen_eq_mirror(rng, kinds=('ct_on',))            # an overridden equality predicate, mirrored values
             sig = sig_from_json(c6['signals'])
             n = len(next(iter(sig.values())))
             scheds = [[], list(range(1, n))] + [sorted(rng.sample(range(1, n), rng.randint(1, n - 1))) for _ in range(4)]
